@@ -348,6 +348,22 @@ func killRound(r *vk.Run, kd *killDir, round int, early bool, delay time.Duratio
 		hb, _ := hdr.MarshalBinary()
 		x := kd.attempts[h][string(hdr.Hash())]
 		if x == nil || !bytes.Equal(x.HdrBin, hb) {
+			// Is it an operation of this round that the journal does not show? (The child names an operation in the
+			// journal before it performs it; a header of a LATER operation at this height means the journal the parent
+			// read is behind the database - bookkeeping trouble of the harness, not a verdict on the store.)
+			ahead := -1
+			for i := last; i < last+400 && ahead < 0; i++ {
+				if op, sp := killOp(kd.seed, round, i); isSave(op.K) && op.H == h {
+					if b, err := materialise(sp); err == nil && bytes.Equal(b.HdrBin, hb) {
+						ahead = i
+					}
+				}
+			}
+			if ahead >= 0 {
+				r.Inconclusive(fmt.Sprintf("kill dir %d round %d: height %d holds the header of operation %d, but the journal read after the kill ends at operation %d: the harness's journal is behind the database", kd.id, round, h, ahead, last-1))
+				kd.dead = true
+				return
+			}
 			probs = append(probs, fmt.Sprintf("height %d holds a header (hash %s) that no operation of the journal wrote there", h, short(hdr.Hash())))
 			continue
 		}
